@@ -139,7 +139,7 @@ class Reader:
             self._raw = mtscomp.Reader()
             ch_file = self.ch_file or _get_companion_file(sglx_file, '.ch')
             self._raw.open(self.file_bin, ch_file)
-            if self._raw.shape != (self.ns, self.nc):
+            if self._raw.shape != (self.ns, self.nc) and self.meta is not None:
                 ftsec = self._raw.shape[0] / self.fs
                 if not self.ignore_warnings:  # avoid the checks for streaming data
                     _logger.warning(
